@@ -211,7 +211,7 @@ def gen_config_variant(rng, cmd):
         k = rng.randint(1, len(files) - 1)
         moved_files = files[k:]
         files = files[:k]
-    n_cfg = 2 if (len(moved) >= 2 and rng.random() < 0.3) else 1
+    n_cfg = 2 if (len(moved) >= 2 and rng.random() < 0.4) else 1
     configs = {}
     cfg_names = ["cfg%d.txt" % i for i in range(n_cfg)]
     parts = [moved] if n_cfg == 1 else [moved[:len(moved) // 2], moved[len(moved) // 2:]]
@@ -226,7 +226,11 @@ def gen_config_variant(rng, cmd):
             text += t + rng.choice([" ", "\n", "  ", "\t", " \n"])
         if rng.random() < 0.2:
             text = "\n" + text
-        configs[name] = text + ("\n" if rng.random() < 0.7 else "")
+        if rng.random() < 0.35:
+            text = text.rstrip()          # final line without newline / trailing blank
+            configs[name] = text
+        else:
+            configs[name] = text + ("\n" if rng.random() < 0.7 else "")
     cfg_groups = [["--config", n] for n in cfg_names]
     argv = linearise(rng, cmd, kept + cfg_groups, files)
     return argv, configs
@@ -249,9 +253,13 @@ def gen_file_fault(rng, world, cmd):
                 "seam": "dataset" if is_nc else "open"}
     if r < 0.45 and not is_nc:
         return {"type": "read_error", "file": name, "after": rng.randint(0, 6)}
+    others = [p["name"] for p in W.parties(world) if p["name"] != name]
+    if r < 0.55 and others:
+        # the path holds another (valid) file from the k-th open on: type detection and reading see different bytes
+        return {"type": "swap", "file": name, "with": rng.choice(others), "at_open": rng.randint(2, 3) if is_nc else 2}
     if r < 0.75:
         return {"type": "torn", "file": name, "frac": rng.random(), "max": 150 if is_nc else None}
-    mode = rng.choice(["empty", "dir", "garbage", "flip", "junk_text", "missing"])
+    mode = rng.choice(["empty", "dir", "garbage", "flip", "junk_text", "missing"] + (["nc_nodims", "nc_nodims"] if is_nc else []))
     return {"type": "corrupt", "file": name, "mode": mode, "frac": rng.random(), "byte": rng.randrange(256)}
 
 
@@ -339,6 +347,23 @@ def gen_spec_c18cli(seed, run, tier):
         cmd = gen_command(rng, world)
         cmds.append(plain(cmd))
     cases = [{"kind": "cmd", "argv": a} for a in cmds]
+    if rng.random() < 0.5:
+        # A ; A + one more option ; A   (an option of one command must not stick to the next)
+        cmd = gen_command(rng, world, allow_f=False)
+        groups = [g for g in cmd["groups"] if not g[0].startswith("--list") and g[0] not in ("-hist", "-sort")]
+        if not any(g[0] == "-m" for g in groups):
+            groups += [["-m", rng.choice(["mae", "bias", "rmse", "obs", "fcst", "cmae"])], ["-type", "csv"]]
+        have = set(g[0] for g in groups)
+        extras = [g for g in ([["-agg", rng.choice(AGGS[1:])], ["-x", rng.choice(AXES)], ["-acc"], ["-b", rng.choice(BINS[:4])],
+                               ["-obsrange", "10,150"], ["-T", "6"], ["-leg", ",".join("Z%d" % i for i in range(len(cmd["files"])))],
+                               ["-o", W._fmt_num(rng.choice(world["universe"]["leadtimes"]))], ["-agg", "max"], ["-agg", "median"]])
+                  if g[0] not in have]
+        if extras:
+            extra = rng.choice(extras)
+            a = list(cmd["files"]) + [t for g in groups for t in g]
+            b = a + extra
+            pos = rng.randint(0, len(cases))
+            cases[pos:pos] = [{"kind": "cmd", "argv": a}, {"kind": "cmd", "argv": b}, {"kind": "cmd", "argv": list(a)}]
     # repeats: the same argv issued again later in the session
     for _ in range(rng.randint(1, 3)):
         src = rng.randrange(len(cmds))
